@@ -211,13 +211,6 @@ pub fn requests(prop: &str, fl: &str, g: &GraphSpec, thorough: bool, rng: Option
                     }
                 }
             }
-            if prop == "C06" {
-                for a in 0..n.min(4) {
-                    for b in 0..n.min(4) {
-                        l.push(format!("cmp {a} {b}"));
-                    }
-                }
-            }
         }
         "C07" => {
             for d in dirs(fl, true) {
